@@ -201,6 +201,16 @@ func TestC09Requests(t *testing.T) {
 			h.Act("%s names=%v payload=%d valid=%t", method, classes, len(payload), valid)
 
 			outBefore := c.OutLen()
+			// one request in six meets a slow peer: the write deadline expires
+			// once, 1-3 bytes into the packet (tolerated: the client goes on
+			// with the remainder); what is emitted must be that one packet
+			if valid && rapid.IntRange(0, 5).Draw(rt, "writeExpiresAfterProgress") == 0 {
+				d := rapid.IntRange(1, 3).Draw(rt, "expiresAt")
+				c.ArmWrite(sim.WFault{Off: outBefore + d, Kind: sim.WTimeoutProgress})
+				h.Act("write deadline expires once, %d bytes into the next packet", d)
+				h.label("write-expiry-after-progress-inside-the-packet")
+				boundary = true
+			}
 			opsBefore := h.Store.NOps()
 			q1Before, q2Before := mqtt.VerifQueueLen(h.Client)
 			slotsBefore := mqtt.VerifUnorderedSlots(h.Client)
